@@ -228,6 +228,11 @@ func (s *Sim) afterReopen(why string) {
 		return
 	}
 	s.fullCheck("after-" + why)
+	for _, o := range s.observers {
+		if pr, ok := o.(PostReopen); ok && s.viol == nil {
+			pr.AfterReopen(s, why)
+		}
+	}
 }
 
 func (s *Sim) proposer() basics.Address {
@@ -244,7 +249,7 @@ func (s *Sim) proposer() basics.Address {
 // addBlock evaluates the generated groups into the next block and adds it to the ledger.
 func (s *Sim) addBlock(gseed uint64, maxGroups int, viaAddBlock bool) {
 	prev := s.states[s.latest]
-	g := newGen(gseed, prev, s.init.GenesisHash, &s.uniq)
+	g := newGen(gseed, prev, s.init.GenesisHash, &s.uniq, propBias[s.cfg.Prop])
 	groups := g.Groups(maxGroups)
 	prevHdr, err := s.led.BlockHdr(s.latest)
 	if err != nil {
@@ -432,6 +437,11 @@ func (s *Sim) run() {
 			s.stat("acked", 1)
 		}
 		s.afterBlock(uint64(rQ))
+		for _, o := range s.observers {
+			if pb, ok := o.(PostBlock); ok && s.viol == nil {
+				pb.AfterBlock(s, uint64(rQ)^0x9e3779b97f4a7c15)
+			}
+		}
 		for j := 0; j < 6; j++ {
 			tp.Canon(base+j, eff[j])
 		}
